@@ -273,7 +273,7 @@ class C17:
             elif op.startswith('conv_euler_a'):
                 canon(l, l.outs[6])
                 areq('conv_a_rot3', l, l.ins + l.outs[3:7],
-                     f'rot_{{i1}}(e0) rot_{{i2}}(e1) rot_{{i3}}(e2) of eulerAngles({op[12]},{op[13]},{op[14]}) is not the rotation')
+                     f'rot_i1(e0) rot_i2(e1) rot_i3(e2) of eulerAngles({op[12]},{op[13]},{op[14]}) is not the rotation')
             elif op == 'conv_euler_xyz':
                 canon(l, l.outs[6])
                 areq('conv_a_rot3', l, l.ins + l.outs[3:7], 'rot_x(e0) rot_y(e1) rot_z(e2) of eulerAngles(0,1,2) is not the rotation')
